@@ -62,18 +62,23 @@ type History struct {
 	Ops     []Op      `json:"ops"`
 	Cut     int       `json:"cut"` // execute steps [0, Cut); -1 = all
 	Witness string    `json:"witness,omitempty"`
+	NoChurn bool      `json:"nochurn,omitempty"` // do not re-use freed size classes after a collection
+	Probe   string    `json:"probe,omitempty"`   // fixed hand-written witness instead of a generated history
 }
 
 type Result struct {
 	ID      int      `json:"id"`
 	Engine  string   `json:"engine"`
 	Witness string   `json:"witness,omitempty"`
+	NoChurn bool     `json:"nochurn,omitempty"`
+	Cached  bool     `json:"cached"`
 	Obs     []string `json:"obs"`
 	Twin    []string `json:"twin"`
 	Crash   string   `json:"crash,omitempty"` // signal / fatal error class
 	Step    int      `json:"step"`            // last step started by the child
 	Tail    string   `json:"tail,omitempty"`
 	WallMs  int64    `json:"wall_ms"`
+	Retried bool     `json:"retried,omitempty"`
 }
 
 // ---------------------------------------------------------------------------------------------
@@ -151,6 +156,7 @@ func (w *world) call(ctx context.Context, m int, name string, args ...uint64) (o
 }
 
 var sink [][]byte
+var noChurn bool
 var psink [][]*uint64
 var dummy = new(uint64)
 
@@ -181,6 +187,9 @@ func forceGC(rounds int) {
 		case <-time.After(300 * time.Millisecond):
 		}
 		time.Sleep(time.Millisecond)
+	}
+	if noChurn {
+		return
 	}
 	sink = sink[:0]
 	for _, sz := range sizeClasses {
@@ -213,6 +222,11 @@ func child(engine string) {
 	}
 	debug.SetMemoryLimit(1 << 30)
 	ctx := context.Background()
+	noChurn = h.NoChurn
+	if h.Probe != "" {
+		probe(ctx, engine, &h)
+		return
+	}
 	n := len(h.Mods)
 	bins := make([][]byte, n)
 	for i := range bins {
@@ -268,6 +282,10 @@ func child(engine string) {
 			fmt.Fprintf(os.Stdout, "@%d\n", i)
 			a := o.A
 			both := func(name string, m int, args ...uint64) {
+				if mw.insts[m] == nil { // no handle in the main world: the step does not happen in either world
+					obs[i], twin[i] = "e:nohandle", "e:nohandle"
+					return
+				}
 				obs[i] = mw.call(ctx, m, name, args...)
 				twin[i] = tw.call(ctx, m, name, args...)
 			}
@@ -325,6 +343,7 @@ func child(engine string) {
 				obs[i], twin[i] = "ok", "ok"
 				ran := false
 				mw.hook = func() { ran = true; exec(i+1, j) }
+				held := mw.insts[a[0]] != nil
 				r := mw.call(ctx, a[0], name, args...)
 				mw.hook = nil
 				if !ran {
@@ -332,7 +351,11 @@ func child(engine string) {
 				}
 				fmt.Fprintf(os.Stdout, "@%d\n", j)
 				obs[j] = r
-				twin[j] = tw.call(ctx, a[0], name, args...)
+				if held {
+					twin[j] = tw.call(ctx, a[0], name, args...)
+				} else {
+					twin[j] = "e:nohandle"
+				}
 				i = j
 			case "closemod":
 				if mw.insts[a[0]] != nil {
@@ -391,9 +414,20 @@ func child(engine string) {
 
 var crashRe = regexp.MustCompile(`SIGSEGV|SIGBUS|SIGILL|SIGABRT|SIGFPE|fatal error: [^\n]*|unexpected signal[^\n]*|panic: [^\n]*|runtime: [^\n]*`)
 
+// supervise runs one history in a child; a child that hits the timeout is run once more (a stall of the loaded
+// machine does not repeat, a genuine hang does).
 func supervise(self string, h *History, engine string, tmo time.Duration) Result {
+	r := superviseOnce(self, h, engine, tmo)
+	if r.Crash == "timeout" {
+		r = superviseOnce(self, h, engine, tmo)
+		r.Retried = true
+	}
+	return r
+}
+
+func superviseOnce(self string, h *History, engine string, tmo time.Duration) Result {
 	t0 := time.Now()
-	res := Result{ID: h.ID, Engine: engine, Witness: h.Witness, Step: -1}
+	res := Result{ID: h.ID, Engine: engine, Witness: h.Witness, NoChurn: h.NoChurn, Cached: h.Cached, Step: -1}
 	in, _ := json.Marshal(h)
 	ctx, cancel := context.WithTimeout(context.Background(), tmo)
 	defer cancel()
